@@ -1182,8 +1182,10 @@ def inline_single_use_temps(func: ast.FunctionDef) -> bool:
                              and isinstance(nxt, ast.Return)) and \
                     _simple_context(nxt.value, st.targets[0].id) and (
                     isinstance(nxt, ast.Return) or (
-                        len(nxt.targets) == 1 and isinstance(
-                            nxt.targets[0], ast.Name))):
+                        len(nxt.targets) == 1 and not any(
+                            isinstance(x, ast.Name)
+                            and x.id == st.targets[0].id
+                            for x in ast.walk(nxt.targets[0])))):
                 name = st.targets[0].id
                 value = st.value
 
